@@ -45,7 +45,9 @@ func c10ExtOutPoint(k int) wire.OutPoint {
 func push(d []byte) []byte { return append([]byte{byte(len(d))}, d...) }
 
 // output kinds
-var c10OutKinds = []string{"p2pk-K1", "p2pkh-H1", "multisig-K1K2", "p2pkh-H2", "opreturn-H1", "truncated-K1", "op0", "nonstd-K1"}
+var c10OutKinds = []string{"p2pk-K1", "p2pkh-H1", "multisig-K1K2", "p2pkh-H2", "opreturn-H1", "truncated-K1", "op0", "nonstd-K1",
+	// the watched element is the SECOND push of the script
+	"multisig-K2K1", "nonstd-H2-K1"}
 
 func c10OutScript(kind string) []byte {
 	switch kind {
@@ -58,6 +60,13 @@ func c10OutScript(kind string) []byte {
 		s = append(s, push(c10K1)...)
 		s = append(s, push(c10K2)...)
 		return append(s, 0x52, 0xae)
+	case "multisig-K2K1":
+		s := []byte{0x51}
+		s = append(s, push(c10K2)...)
+		s = append(s, push(c10K1)...)
+		return append(s, 0x52, 0xae)
+	case "nonstd-H2-K1":
+		return append(append(push(c10H2), push(c10K1)...), 0x87)
 	case "p2pkh-H2":
 		return append(append([]byte{0x76, 0xa9}, push(c10H2)...), 0x88, 0xac)
 	case "opreturn-H1":
@@ -159,6 +168,9 @@ func c10EvalTx(w *mc.W, cas c10Tx) {
 		model.Insert(c10K1)
 		e := c10ExtOutPoint(1)
 		model.Insert(ref.OutPointBytes(e.Hash, e.Index))
+	case "txid+K1":
+		model.Insert(rtx.TxID[:])
+		model.Insert(c10K1)
 	}
 	msg := wire.NewMsgFilterLoad(model.Bytes(), k, 0x5eed, wire.BloomUpdateType(cas.Flags))
 	f := bloom.LoadFilter(msg)
@@ -509,7 +521,7 @@ func runC10(c *mc.Ctx) {
 			insets = append(insets, []string{a, b})
 		}
 	}
-	contents := []string{"none", "K1", "H1", "txid", "E1", "K1+E1"}
+	contents := []string{"none", "K1", "H1", "txid", "E1", "K1+E1", "txid+K1"}
 	geoms := []string{"mid", "tiny", "two"}
 	if c.Thorough() {
 		geoms = append(geoms, "big")
@@ -529,6 +541,28 @@ func runC10(c *mc.Ctx) {
 		w.State()
 		c10EvalTx(w, c10Tx{Content: contents[idx[0]], Outs: outsets[idx[1]], Ins: insets[idx[2]], Flags: idx[3], Geom: geoms[idx[4]]})
 	})
+	// wide transactions: n outputs of which only one (at an index beyond 8 / 16 bits) pays the watched
+	// key; result and final filter (the inserted outpoint carries the output index) against the reference
+	{
+		var wide []c10Tx
+		for _, n := range []int{257, 300, 65537} {
+			for _, at := range []int{n - 1, 256, n / 2} {
+				outs := make([]string, n)
+				for i := range outs {
+					outs[i] = "p2pkh-H2"
+				}
+				outs[at] = "p2pk-K1"
+				for fl := 1; fl <= 2; fl++ {
+					wide = append(wide, c10Tx{Content: "K1", Outs: outs, Ins: []string{"spend-E0"}, Flags: fl, Geom: "mid"})
+				}
+			}
+		}
+		c.Space("wide transactions (257, 300, 65537 outputs, one watched)", int64(len(wide)))
+		c.ParFor(int64(len(wide)), func(w *mc.W, i int64) {
+			w.State()
+			c10EvalTx(w, wide[i])
+		})
+	}
 	c.Sample("tx", c10Tx{Content: "K1", Outs: []string{"p2pk-K1"}, Ins: []string{"spend-E0"}, Flags: 2, Geom: "mid"})
 
 	// ---- blocks
